@@ -188,6 +188,12 @@ def rule_boolean(repo, rule):
                 boolsyms[fi.params[0]] = "self is a LinCombBool"
             env = {k: P.sym(k) for k in boolsyms}
             for step in path.steps:
+                if step[0] == "cond" and step[2] is True and isinstance(step[1], ast.Call) and norm(step[1].func) == "isinstance" \
+                        and len(step[1].args) == 2 and isinstance(step[1].args[0], ast.Name) \
+                        and norm(step[1].args[1]).split(".")[-1] == "LinCombBool" and step[1].args[0].id not in env:
+                    # the type test on this path says the operand is a LinCombBool: its wire carries a bit
+                    boolsyms[step[1].args[0].id] = "a LinCombBool on this path (isinstance test)"
+                    env[step[1].args[0].id] = P.sym(step[1].args[0].id)
                 if step[0] != "assign":
                     continue
                 nm, val = step[1], step[2]
@@ -406,6 +412,41 @@ def rule_gadgets(repo, rule):
             rule.violation(cz.loc(), cz.fq, norm(rets[0].value) if rets else "", "does not return the constrained result", "check_zero/ret")
     else:
         rule.undecided(cz.loc(), cz.fq, "hints %s" % hints, "zero-test witnesses not identified")
+    # ------------------------------------------------------------ the primitive assertions
+    # assert_zero / assert_nonzero: with an active guard of value 1 (or none at all) every completing path emits a constraint
+    # that says  self = 0  /  self * w = 1 for a fresh witness w.  The emission may be the generic one (add_constraint, which
+    # adds the dummy) or one written on the guard wire (guard * self = 0, self * w = guard).
+    for mname, label in (("assert_zero", "self = 0"), ("assert_nonzero", "self * w = 1")):
+        fm = lc.methods.get(mname)
+        if fm is None:
+            raise AnalysisError("LinComb.%s not found" % mname)
+        penv = {fm.params[0]: P.sym("self"), "LinComb.ONE_SAFE": P.const(1), "LinComb.ONE": P.const(1), "LinComb.ZERO": P(),
+                "guard": P.const(1)}
+        wits = set()
+        for a in ast.walk(fm.node):
+            if isinstance(a, ast.Assign) and isinstance(a.value, ast.Call) and norm(a.value.func).split(".")[-1] in ALLOCATORS \
+                    and len(a.targets) == 1 and isinstance(a.targets[0], ast.Name):
+                wits.add(a.targets[0].id)
+                penv[a.targets[0].id] = P.sym("w")
+        def _says(c, penv=penv, mname=mname):
+            if not (isinstance(c, ast.Call) and norm(c.func).split(".")[-1] in EMITTERS and len(c.args) >= 3):
+                return False
+            ps = [poly_of(x, penv, strict=True) for x in c.args[:3]]
+            if None in ps:
+                return False
+            p = ps[0] * ps[1] - ps[2]
+            s = P.sym("self")
+            if mname == "assert_zero":
+                return p == s or p == -s
+            return p == s * P.sym("w") - 1 or p == 1 - s * P.sym("w")
+        r = on_all_paths(fm, _says, "a constraint saying %s" % label, rule, "%s/constraint" % mname)
+        if r is not None:
+            hit, nodes, cfg = r
+            if cfg.exit in cfg.reach_avoiding(cfg.entry, nodes):
+                rule.violation(fm.loc(), fm.fq, norm(hit), "a completing path emits no constraint saying %s (for a guard of value 1): "
+                               "the assertion is not enforced there" % label, "%s/path" % mname)
+            else:
+                rule.ok(fm.loc(hit), fm.fq, "%d emission(s), e.g. %s" % (len(nodes), norm(hit)), "every completing path says %s" % label)
     # ------------------------------------------------------------ sign test
     cp = lc.methods["check_positive"]
     cons = [c for c in ast.walk(cp.node) if isinstance(c, ast.Call) and norm(c.func) == "add_constraint" and len(c.args) >= 3]
